@@ -8,6 +8,7 @@ import (
 
 func init() {
 	vpHarnesses["VP_C04_entry_int"] = VP_C04_entry_int
+	vpHarnesses["VP_C04_entry_float"] = VP_C04_entry_float
 }
 
 // vpBigIsInt64: x is finite and equals n exactly (independent of Cmp).
@@ -87,4 +88,44 @@ func VP_C04_entry_int() {
 	}
 	vpAssert("C04/entry-int/exact", vpBigIsInt64(x, n))
 	vpReach("C04/entry-int/done")
+}
+
+// C04/entry-float: Go float64 data values enter the computation with exactly
+// the decimal value they print as. Formatting a symbolic float cannot be
+// encoded (strconv's shortest-representation algorithm), so the values come
+// from a concrete pool chosen to include whole numbers beyond 2^53 and 2^63,
+// values with no short binary representation, denormals and the extremes;
+// the expected decimal (coefficient, exponent) is written out by hand.
+func VP_C04_entry_float() {
+	pool := []struct {
+		f    float64
+		neg  bool
+		coef uint64
+		exp  int
+	}{
+		{0.1, false, 1, -1}, {0.2, false, 2, -1}, {0.3, false, 3, -1}, {1.5, false, 15, -1}, {-2.25, true, 225, -2},
+		{30.749999000000003, false, 30749999000000003, -15}, {9007199254740993, false, 9007199254740992, 0},
+		{1e19, false, 1, 19}, {1.5e20, false, 15, 19}, {9223372036854775808, false, 9223372036854776, 3},
+		{-1e19, true, 1, 19}, {1e22, false, 1, 22}, {123456.789, false, 123456789, -3}, {5e-324, false, 5, -324},
+		{1.7976931348623157e308, false, 17976931348623157, 292}, {0, false, 0, 0}, {1e-7, false, 1, -7}, {4294967296.5, false, 42949672965, -1},
+	}
+	p := pool[vpChoice("f", len(pool))]
+	r := NewRunner()
+	r.SetThis(map[string]interface{}{"v": p.f})
+	got, err := r.resolve(context.Background(), vpId("v"))
+	x, ok := got.(*decimal.Big)
+	vpAssert("C04/entry-float/is-number", err == nil && ok && x != nil)
+	if !ok || x == nil {
+		return
+	}
+	want := new(decimal.Big).SetMantScale(int64(p.coef), -p.exp)
+	if p.coef > 1<<63-1 {
+		want = new(decimal.Big).SetUint64(p.coef)
+		want.SetScale(-p.exp)
+	}
+	if p.neg {
+		want.SetSignbit(true)
+	}
+	vpAssert("C04/entry-float/exact-decimal-value-it-prints-as", x.IsFinite() && x.Cmp(want) == 0 && (p.coef == 0 || x.Signbit() == p.neg))
+	vpReach("C04/entry-float/done")
 }
